@@ -83,6 +83,18 @@ CHECKS = {
  "C07": dict(level="model_checking", text='Designed scenarios solved with use_numba, only_update_hydraulic_matrix and reuse_internal_data must equal the exact prediction; MC_Hist call histories over {plain, update, reuse} with load edits, structural edits and legitimate reuse are compared bit-exactly with fresh-net runs.', design_ref="DESIGN.md 5 C07", note='Trusted: designed constants (harness/designed.py: D*, eta, k), the harness-computed barometric table (documented formula, 1e-6 bar), tick projection. The exact clauses cover the designed liquid family only (constant-property fluid, nikuradse friction, pipes / valves / heat exchangers, trees + chords, up to 6 junctions sampled, <=3 junctions exhaustive in the model); gases, colebrook / swamee-jain and library fluids are not yet covered by the exact reference (limits in DESIGN.md section 6).', technique='TLA+ exact reference model (PPRefHyd/GenHyd) model-checked with TLC + TLC-generated scenarios replayed into pandapipes + trace validation (Trace_Ref/Trace_PF)'),
  "C08": dict(level="model_checking", text='Every designed scenario is started from pn_bar 0.6 / 30 / 9 / 2 bar and with automatic damping; every converged run must equal the exact prediction (hence any two agree).', design_ref="DESIGN.md 5 C08", note='Trusted: designed constants (harness/designed.py: D*, eta, k), the harness-computed barometric table (documented formula, 1e-6 bar), tick projection. The exact clauses cover the designed liquid family only (constant-property fluid, nikuradse friction, pipes / valves / heat exchangers, trees + chords, up to 6 junctions sampled, <=3 junctions exhaustive in the model); gases, colebrook / swamee-jain and library fluids are not yet covered by the exact reference (limits in DESIGN.md section 6).', technique='TLA+ exact reference model (PPRefHyd/GenHyd) model-checked with TLC + TLC-generated scenarios replayed into pandapipes + trace validation (Trace_Ref/Trace_PF)'),
  "C09": dict(level="model_checking", text='Rewrites as generator dimensions (orientation of every branch, section counts; TLC checks the prediction is invariant) and as builder variants (sectioned pipe -> series pipes, demand split over scaled sinks, source as negative sink, switched-off extra elements); the same exact prediction must hold; the liquid pressure-shift law is a TLC-checked invariant of the model and is exercised by the two-feeder scenarios.', design_ref="DESIGN.md 5 C09", note='Trusted: designed constants (harness/designed.py: D*, eta, k), the harness-computed barometric table (documented formula, 1e-6 bar), tick projection. The exact clauses cover the designed liquid family only (constant-property fluid, nikuradse friction, pipes / valves / heat exchangers, trees + chords, up to 6 junctions sampled, <=3 junctions exhaustive in the model); gases, colebrook / swamee-jain and library fluids are not yet covered by the exact reference (limits in DESIGN.md section 6).', technique='TLA+ exact reference model (PPRefHyd/GenHyd) model-checked with TLC + TLC-generated scenarios replayed into pandapipes + trace validation (Trace_Ref/Trace_PF)'),
+ "C18": dict(
+    level="model_checking",
+    text="Nets emitted by TLC from the connectivity model (exhaustive small space + seeded simulation, consistent junction flags) are given to "
+         "create_nxgraph (multigraph and simple graph), unsupplied_junctions and the distance functions, and solved by pipeflow; Trace_Graph states "
+         "the documented meaning: one keyed edge per in-service junction-junction element, none for a valve attached to a pipe, a pipe cut when all "
+         "valves at one end are closed, components, unsupplied = no pressure-fixing feeder in the component, graph = solver pattern = PPConn on the "
+         "common scope, single- and multi-source distances = shortest-path sums of pipe lengths (Bellman-Ford in TLA+).",
+    design_ref="DESIGN.md 5 C18",
+    note="Default arguments only (include_* / respect_status_* combinations not enumerated yet). Graph-vs-solver clause restricted to component mixes "
+         "without active flow controllers, heat consumers and pressure controllers, where graph connectivity and hydraulic coupling are not meant to "
+         "coincide. Nets up to 4 junctions / 4 branches / 2 pipe-valves.",
+    technique="TLA+ connectivity/graph semantics (PPConn, Trace_Graph) + TLC-generated nets replayed into pandapipes.topology and pipeflow + trace validation"),
 }
 NA_REASON = "check not built yet in this round (work in progress; see DESIGN.md section 5 for the planned decision procedure)"
 
